@@ -187,9 +187,10 @@ def check_property(mod, world, tier="quick", seed=0):
             gset["wanted"] |= set(st.get("wanted", []))
             for k in st.get("outcomes", {}):
                 gset["seen"].add(k)
+    units_with_failures = {o["unit"] for o in obligs if o.get("status") == "sat" and o.get("tag") in ("property", "helper")}
     for gname, gset in groups.items():
-        if gset["partial"]:
-            continue
+        if gset["partial"] or any(u.startswith(gname + "[") for u in units_with_failures):
+            continue  # (a failing obligation in an arm already says what happened to the outcome that is not reached)
         for k in sorted(gset["wanted"]):
             hit = k in gset["seen"] or (k == "normal" and "yield" in gset["seen"]) or any(s_.startswith("raise:") and k.startswith("raise:") and
                                            world.lib.exc_class(s_[6:]).is_subclass_of(world.lib.exc_class(k[6:])) for s_ in gset["seen"])
